@@ -20,6 +20,11 @@ class _Extras:
         self.__dict__.setdefault("_journal", []).append(("hop", height, hue, hint))
         return f"{height}/{hue}/{hint}"
 
+    def tune(self, speed: int = 1, size: int = 2, shape: str = "round", strict: bool = False) -> str:
+        """Four optional parameters that all start with 's': -s, -S, then long forms only."""
+        self.__dict__.setdefault("_journal", []).append(("tune", speed, size, shape, strict))
+        return f"{speed}x{size}:{shape}:{strict}"
+
     def note(self, first: str, *words: str, sep: str = "+", high: int = 0, quiet: bool = False) -> str | None:
         """Positional, repeated positionals, keyword-only options."""
         self.__dict__.setdefault("_journal", []).append(("note", first, words, sep, high, quiet))
